@@ -48,6 +48,30 @@ theorem C03_queue_after_executed {cfg : Config S} (hdt : 0 ≤ cfg.dt) {P : Node
   intro a ha b hb
   exact (reachable_inv hdt h).exec_lt_queue a (List.mem_reverse.mp ha) b hb
 
+/-- the same three statements for every run of a *tolerant stepped driver* (`ReachableT`: steps, requests issued
+    from outside, and steps out of which a callback's exception escaped while the caller kept stepping, in
+    any order): sequence numbers are still the request order, the executed keys are still strictly increasing
+    - so FIFO among ties survives an escaped exception - and nothing queued overtakes anything executed -/
+theorem C03_fifo_tolerant {cfg : Config S} (hdt : 0 ≤ cfg.dt) {P : NodeId → Proto S σ}
+    {w : World S σ} (h : ReachableT cfg P w) :
+    w.accepted.Pairwise (fun a b => a.seq < b.seq) ∧ w.executed.Pairwise keyLt ∧
+    (∀ a ∈ w.executed, ∀ b ∈ w.loop.queue, keyLt a b) ∧
+    (∀ i j (hi : i < w.executed.length) (hj : j < w.executed.length),
+      w.executed[i].ts ≤ w.executed[j].ts → w.executed[i].seq < w.executed[j].seq → i < j) := by
+  have inv := reachableT_inv hdt h
+  have hp : w.executed.Pairwise keyLt := by
+    unfold World.executed; exact List.pairwise_reverse.mpr inv.exec_sorted
+  refine ⟨?_, hp, ?_, ?_⟩
+  · unfold World.accepted; exact List.pairwise_reverse.mpr inv.acc_sorted
+  · intro a ha b hb; exact inv.exec_lt_queue a (List.mem_reverse.mp ha) b hb
+  · intro i j hi hj hts hseq
+    rcases Nat.lt_trichotomy i j with hlt | heq | hgt
+    · exact hlt
+    · subst heq; omega
+    · have := List.pairwise_iff_getElem.mp hp j i hj hi hgt
+      unfold keyLt at this
+      omega
+
 /-- messages on one link with a fixed delay, and same-instant timers of one node: a later request
     with a due time not earlier gets a later key, so (by `C03_fifo`) it is handled later -/
 theorem C03_later_request_later_key {cfg : Config S} (hdt : 0 ≤ cfg.dt) {P : NodeId → Proto S σ}
